@@ -58,6 +58,8 @@ pub fn sim_spec() -> impl Strategy<Value = SimSpec> {
 	)
 		.prop_map(|(children, spawn_fail, kill_fail, signal_fail)| SimSpec {
 			async_api: (children.len() + spawn_fail.len() + kill_fail.len()) % 3 == 1,
+			// (a suspending hook is only generated where the reference model accounts for it: C09)
+			hook_delay: 0,
 			children,
 			spawn_fail,
 			kill_fail,
